@@ -119,6 +119,6 @@ def replay(doc):
 
 
 def jobs(tier, seed):
-    n, shards = (2400, 8) if tier == "quick" else (80000, 16)
+    n, shards = (2400, 8) if tier == "quick" else (120000, 16)
     return [{"name": "hist-%d" % k, "kind": "hist", "n": n // shards, "seed": seed * 1000 + k,
              "shrink": 150 if tier == "quick" else 1500} for k in range(shards)]
